@@ -1,4 +1,4 @@
-"""C18 -- an interrupted save never leaves an unopenable project (clauses R18.1-R18.7)."""
+"""C18 -- an interrupted save never leaves an unopenable project (clauses R18.1-R18.8)."""
 from __future__ import annotations
 
 import ast
@@ -23,6 +23,7 @@ EXPLANATION = (
     "so a strict prefix of the file is never a complete shorter value.  R18.6: data files are opened for writing with a truncating mode only.  R18.7: rebuilding changes from the saved history calls no lookup that raises for a missing path.  Which version survives a crash is not decided."
     ' R18.4 also: an element of the list of loaded records is taken only where the list is known to be non-empty.'
 )
+EXPLANATION += " R18.8: the reader of the data files performs no change (no resource mutator, no do): those run through the history that is being loaded."
 ASSUMPTIONS = [
     "a strict prefix of a valid pickle stream makes pickle.load raise EOFError or pickle.UnpicklingError (CPython behaviour)",
     "oi/doa.py and oi/runmod.py deserialise from a pipe/socket of the dynamic-analysis child, not from a data file",
@@ -99,7 +100,7 @@ def _open_mode(c: ast.Call, fn: Optional[ast.AST] = None) -> Optional[str]:
     return "|".join(sorted(modes(e)))
 
 
-def check(ctx, res) -> None:
+def _check_body(ctx, res) -> None:
     import pickle
 
     idx = ctx.idx
@@ -598,3 +599,32 @@ def history_order_rule(ctx, res, rule: str) -> None:
                  "close + reopen undo()/redo() take the oldest entry first and no longer restore the state before / after the last change"),
                 function=ld.qualname)
     res.floor(rule, "saved history slots", n, 2)
+
+
+def check(ctx, res) -> None:
+    _check_body(ctx, res)
+    _reading_changes_nothing_rule(ctx, res)
+
+
+def _reading_changes_nothing_rule(ctx, res) -> None:
+    """R18.8: opening a project whose data files are in a crash state READS them and goes on with "nothing saved".  The reader of the
+    data files (`_DataFiles.read_data` and the private helpers it calls) performs no change: it calls no mutator of a resource
+    (`remove`, `write`, `move`, `create_*`) and no `do` -- each of them runs through `project.do`, i.e. through the history, which
+    is one of the things being loaded (the history's own loader re-enters itself without end; a removal while the object
+    data are read clears the redo list that was just loaded)."""
+    from .common import with_private_helpers
+    idx = ctx.idx
+    rd = idx.need_func("rope.base.project._DataFiles.read_data")
+    fam = with_private_helpers(idx, rd, depth=3)
+    MUT = {"remove", "write", "write_bytes", "move", "create_file", "create_folder", "create", "do", "unlink", "rmtree", "rename", "replace"}
+    n = 0
+    for g in fam:
+        for c in calls_in(g.node):
+            if isinstance(c.func, ast.Attribute) and c.func.attr in MUT:
+                n += 1
+                res.fail("R18.8", f"_DataFiles.{g.name}|reading-changes-nothing#{n}", f"{g.unit.rel}:{c.lineno}",
+                         f"`{ast.unparse(c)[:60]}` on the path that READS a data file: a resource mutator runs through project.do and the history -- while the history itself is being "
+                         "loaded from a cut file this re-enters the loader without end (RecursionError out of `project.history`), and a removal while the object data are read "
+                         "clears the redo list that was loaded from an intact file", function=g.qualname)
+    res.add("R18.8", "_DataFiles.read_data|reading-changes-nothing", n == 0, rd.where,
+            f"{len(fam)} function(s) on the reading path call no resource mutator" if n == 0 else f"{n} mutating call(s) on the reading path", functions=[g.qualname for g in fam])
